@@ -411,3 +411,54 @@ def rule_r2_move(prog, rep, units, rid='R2-move'):
                     rep.violation(rid, f, x.get('_line'), 'move:%s' % fld,
                                   '%s%s takes over %s but %s%s is %s: the payload is later copied/reported with the wrong length'
                                   % (dst, fld, src, dst, sizef, ('assigned from ' + ', '.join(got)) if got else 'not updated'))
+
+
+def rule_r2_fill(prog, rep, units, rid='R2-fill'):
+    """Bytes copied into a node's payload field are accompanied, on every path to the return, by storing that
+    length in the paired size field (an in-place overwrite must update the recorded length)."""
+    from .hasharr import _path_avoiding
+    rep.rule(rid, 'a copy into a node\'s value/key buffer is followed on all paths by storing the copied length in the paired size field')
+    pairs = payload_pairs(prog)
+    for rel in units:
+        for f in sorted(prog.funcs_in(rel), key=lambda x: x.line or 0):
+            for n in f.cfg.nodes:
+                if n.id not in f.cfg.reachable or not isinstance(n.ast, dict) or n.kind == 'macro':
+                    continue
+                for x in walk(n.ast):
+                    if x.get('kind') == 'CallExpr' and prog.callee_name(x) in ('memcpy', 'memmove', 'strcpy', 'strncpy'):
+                        args = children(x)[1:]
+                        d = strip(args[0])
+                        if d.get('kind') != 'MemberExpr' or not d.get('_field') or d['_field'][0] not in pairs:
+                            continue
+                        pr = [p for p in pairs[d['_field'][0]] if p[0] == d['_field'][1]]
+                        if not pr or len(args) < 3:
+                            continue
+                        owner = canon(children(d)[0]) + ('->' if d.get('isArrow') else '.')
+                        want_l = owner + pr[0][1]
+                        ln = canon(args[2])
+                        rep.instance(rid)
+
+                        def sets(m):
+                            if not isinstance(m.ast, dict) or m.kind == 'macro':
+                                return False
+                            return any(y.get('kind') == 'BinaryOperator' and y.get('opcode') == '=' and canon(children(y)[0]) == want_l
+                                       and canon(children(y)[1]) == ln for y in walk(m.ast))
+                        # the length may also have been stored just before the copy on every path
+                        before = _stored_before(f, n, want_l, ln)
+                        ok = before or not _path_avoiding(f.cfg, n, sets)
+                        rep.oblige(rid, ok, {'function': f.name, 'copy': canon(x)[:70], 'requires': '%s = %s' % (want_l, ln)})
+                        if not ok:
+                            rep.violation(rid, f, x.get('_line'), 'fill:%s' % canon(d),
+                                          '%s bytes are copied into %s but some path returns without %s = %s: the element keeps a '
+                                          'stale length' % (ln, canon(d), want_l, ln))
+
+
+def _stored_before(f, node, lhs, rhs):
+    dom = f.cfg.dominators().get(node.id, set())
+    for i in dom:
+        m = f.cfg.nodes[i]
+        if isinstance(m.ast, dict) and m.kind != 'macro':
+            for y in walk(m.ast):
+                if y.get('kind') == 'BinaryOperator' and y.get('opcode') == '=' and canon(children(y)[0]) == lhs and canon(children(y)[1]) == rhs:
+                    return True
+    return False
